@@ -9,7 +9,7 @@ import (
 )
 
 func init() {
-	for _, f := range []func() scen.Spec{scen.Core, scen.Basket, scen.Market, scen.BridgeSpec, scen.Large, scen.Expiry, scen.GovPool, scen.BasketLarge, scen.Mixed} {
+	for _, f := range []func() scen.Spec{scen.Core, scen.Basket, scen.Market, scen.BridgeSpec, scen.Large, scen.Expiry, scen.GovPool, scen.BasketLarge, scen.BasketMarket, scen.Mixed} {
 		regSpec(f)
 	}
 	shared := func() []scen.Spec {
@@ -39,7 +39,7 @@ func init() {
 			budget(tier, 200*time.Second, 15*time.Minute))
 	}
 	Registry["C05"] = func(tier string) int {
-		return engineA("C05", tier, []scen.Spec{scen.Basket(), scen.BasketLarge(), scen.Mixed()},
+		return engineA("C05", tier, []scen.Spec{scen.BasketMarket(), scen.Basket(), scen.BasketLarge(), scen.Mixed()},
 			func() []explore.Monitor { return []explore.Monitor{&mon.C05{}} },
 			budget(tier, 150*time.Second, 12*time.Minute))
 	}
